@@ -31,7 +31,7 @@ T_OTHER = "_ipp._tcp.local."
 
 def floors(tier):
     q = tier == "quick"
-    return {"c13.known_answers": 15000 if q else 1500000, "c13.suppression": 3000 if q else 300000, "c13.progression": 8000 if q else 800000}
+    return {"c13.known_answers": 15000 if q else 1500000, "c13.suppression": 3000 if q else 300000, "c13.progression": 8000 if q else 800000, "c13.second_lookup": 300 if q else 30000}
 
 
 def plan(tier, seed):
@@ -455,7 +455,7 @@ def run_lookup(res: Result, seed: int, forced_scenario: Optional[Dict[str, Any]]
         if have["AAAA"] == "stale" and have["SRV"] != "absent":
             have["AAAA"] = "absent"
     second = rng.random() < 0.3
-    second_gap = rng.choice([0, 100, 500, 998, 1000, 1500])
+    second_gap = rng.choice([0, 100, 250, 300, 400, 500, 998, 1000, 1500])
     # a cached SRV or TXT that passes half of its TTL 150..900 ms after the lookup starts: its question is not asked by the
     # first queries (answer held) and becomes a new question in a later one
     going_stale = None
@@ -536,9 +536,22 @@ def run_lookup(res: Result, seed: int, forced_scenario: Optional[Dict[str, Any]]
             viol("c13.progression", "loop_exception", repr(esc)[:800])
         S = out["S"]
         batches = queries_of(sim, out["mark"])
-        if second:
-            # two interleaved lookups: only per-question rules are judged (known answers, suppression window)
-            pass
+        if second and forced != "QM" and batches and abs(batches[0][0] - S) < 1e-6:
+            # two interleaved lookups.  The cache does not change between the two starts (nothing answers), so the second lookup
+            # needs what the first one needed: its first query - QU, hence never suppressed by what the first lookup asked a
+            # moment ago - must leave in the instant it starts, with the same questions.
+            res.mon("c13.second_lookup")
+            S2 = out["S2"]
+            first_qs = {(q.name.text().lower(), q.type) for m in batches[0][1] for q in m.questions if q.cls & 0x8000}
+            at = [m for t, msgs in batches if abs(t - S2) < 1e-6 for m in msgs if m.questions and all(q.cls & 0x8000 for q in m.questions)]
+            need = 2 if second_gap == 0 else 1
+            if first_qs and len(at) < need:
+                viol("c13.suppression", "qu_question_not_sent", "second lookup started %d ms after the first (which asked %r by QU): %d QU quer%s in its start instant, "
+                     "expected %d - QU questions are never suppressed and the first query of a lookup is QU" % (
+                         second_gap, sorted(first_qs)[:4], len(at), "y" if len(at) == 1 else "ies", need), gap=second_gap)
+            elif first_qs and {(q.name.text().lower(), q.type) for q in at[-1].questions} != first_qs:
+                viol("c13.suppression", "qu_question_not_sent", "second lookup started %d ms after the first: its first query asks %r, the first lookup asked %r with the "
+                     "same cache" % (second_gap, sorted((q.name.text().lower(), q.type) for q in at[-1].questions), sorted(first_qs)), gap=second_gap)
         hist = History()
         prev_t: Optional[float] = None
         for bi, (t, msgs) in enumerate(batches):
